@@ -34,7 +34,8 @@ def transforms_for(rng, case, tier):
     n = len(case[k0])
     ks = [F(1), F(-7, 2), F(1000), F(1, 16)]
     if fn in ADD:
-        for k in rng.sample(ks, 2):
+        big = [] if (fn == "atten" and case.get("check_type") == "std") else [F(2**20), F(-(2**30))]
+        for k in rng.sample(ks, 2) + ([rng.choice(big)] if big else []):
             c = copy.deepcopy(case)
             c["inp"] = add_all(c["inp"], k)
             yield {"kind": "addValue", "k": k}, c
